@@ -108,6 +108,8 @@ def run(facts, rep, tier):
         vm = [n for n, _ in nodes(eh["body"], "match") if n.get("src") == "normal" and "VariantDetails" in c.ty(n.get("scty"))]
         if rep.floor("C07.D1", "match over VariantDetails in the child enumerator", len(vm), 1):
             got = {}
+            from lib import table_is_plain
+            table_is_plain(rep, "C07.D1", "variant-children", vm[0])
             for arm in vm[0]["arms"]:
                 for t in pat_top_variants(arm["pat"]):
                     s = src(arm["body"])
